@@ -33,7 +33,9 @@ def run(c):
             n_ok += 1
         start = json.loads(ls[0])
         for ev, reason in failures:
-            if not ev["fsck"]:
+            if ev.get("hung"):
+                what = "the command did not come back: " + ev["out"][:200]
+            elif not ev["fsck"]:
                 what = "git fsck --strict complains: " + ev["fsckout"][:300]
             elif not ev["refsok"]:
                 what = "a ref outside git-bug's namespaces was created"
